@@ -562,6 +562,7 @@ impl Session {
             },
             "values" => crate::valw::values(self, cmd),
             "dqe" => crate::valw::dqe(self, cmd),
+            "vard" => crate::valw::vard(self, cmd),
             "c08_sweep" => crate::c08w::sweep(self, cmd),
             "c15_sweep" => {
                 let mut v = crate::c15w::sweep(self);
